@@ -7,9 +7,6 @@ HDR = ("From Coq Require Import List ZArith Bool.\n"
        "From WH Require Import lib.Wire gen.Extracted model.EvmWatcher model.EvmWatcherCase.\n"
        "Import ListNotations.\nOpen Scope Z_scope.\n")
 
-LMP = None
-
-
 def gkey(tx, bh, em, seq):
     return "(mkKey %d %d %d %d)" % (tx, bh, em, seq)
 
